@@ -891,6 +891,180 @@ example : dropOvr (flatten 6 exDoc 1) ≠ flatten 6 exDoc 1 := by decide
 example : runningConfig 6 (reloadAs 6 ⟨exDoc, 1, []⟩ 0) = runningConfig 6 ⟨exDoc, 1, []⟩ :=
   platformless_reload_preserves_resolution 6 ⟨exDoc, 1, []⟩ (by decide) (by decide) (by decide) rfl
 
+/-! ### sessions: iterations and loads interleaved, loads that update the files and loads that do not -/
+
+/-- the stored description of a description that resolves is itself a description that resolves for the same
+platform (what a restart loads can be stored, iterated and loaded again) -/
+theorem resolves_stored (N : Nat) (L : Doc) (P : Name) (h : resolves N L P = true) :
+    resolves N (flatten N L P) P = true := by
+  obtain ⟨p1, p2, p3⟩ := resolves_parts h
+  unfold resolves
+  simp only [Bool.and_eq_true, List.all_eq_true, Bool.or_eq_true]
+  refine ⟨⟨?_, ?_⟩, ?_⟩
+  · rw [gv0_second, gvars_second h, dictClosed_iff]
+    intro e he
+    rw [closedIn_congr (c2 := gv0 L P) (fun k => by simp [gvars])]
+    exact p1 e he
+  · intro c' hc'
+    have hc'' : c' ∈ L.comps.map (flatComp N L P) := hc'
+    obtain ⟨c, hc, rfl⟩ := List.mem_map.mp hc''
+    have hs : c.stage ∈ L.comps.map (·.stage) := List.mem_map.mpr ⟨c, hc, rfl⟩
+    rw [flatComp_stage, flatComp_isDoc]
+    refine ⟨⟨?_, ?_⟩, ?_⟩
+    · rw [svars_second h c hc, dictClosed_iff]
+      intro e he
+      rw [closedIn_congr (c2 := sctx N L P c.stage) (fun k => by
+        simp [sctx, hasKey_update, gvars_second h, sv0_second c.stage hs, svars])]
+      exact (p2 c hc).1 e he
+    · have : bpsCtx N (flatten N L P) P c.stage = bpsCtx N L P c.stage := by
+        unfold bpsCtx; rw [gvars_second h, svars_second h c hc]
+      rw [this, bpsv_second h c hc, dictClosed_iff]
+      exact (p2 c hc).2.1
+    · cases hd : c.isDoc with
+      | true => exact Or.inl rfl
+      | false =>
+        right
+        have hovr : ovrVars (flatComp N L P c) P = ovrVars c P := by
+          unfold ovrVars; rw [flatComp_ovr N L P c hd, find?_filter_self]
+        have hvars : (flatComp N L P c).vars = mapVals (interp N (cctx N L P c)) (cv0 c P) := by
+          simp [flatComp, hd]
+        rw [compVars_second h c hc hd, dictClosed_iff]
+        intro e he
+        rw [closedIn_congr (c2 := cctx N L P c) (fun k => by
+          simp only [cctx, hasKey_update, flatComp_stage, gvars_second h, svars_second h c hc]
+          simp only [cv0, hovr, hvars, hasKey_update, hasKey_mapVals]
+          cases hasKey (gvars N L P) k <;> cases hasKey (svars N L P c.stage) k <;>
+            cases hasKey c.vars k <;> cases hasKey (ovrVars c P) k <;> rfl)]
+        rcases (p2 c hc).2.2 with h1 | h1
+        · rw [hd] at h1; cases h1
+        · exact h1 e he
+  · rw [gvars_second h, bpg_second h, dictClosed_iff]
+    exact p3
+
+private theorem runSteps_cons (N : Nat) (S : Session) (st : Step) (r : List Step) :
+    runSteps N S (st :: r) = runSteps N (step N S st) r := rfl
+
+/-- **Every loop iteration instantiated so far is in the stored description — for every history**: whatever the
+interleaving of iterations, explicit stores and loads, whichever platform each load names and whether or not it is
+allowed to update the instance files (a restart is not), the description on disk lists the components the session
+started with followed by the components of every iteration instantiated since, and so does the experiment object
+that currently drives the instance. -/
+theorem session_components (N : Nat) (steps : List Step) :
+    ∀ S : Session, compIds S.disk = compIds S.exp.doc →
+      compIds (runSteps N S steps).disk = compIds S.disk ++ iterIds steps
+      ∧ compIds (runSteps N S steps).exp.doc = compIds S.disk ++ iterIds steps := by
+  induction steps with
+  | nil => intro S h; simp [runSteps, iterIds, h]
+  | cons st r ih =>
+    intro S h
+    rw [runSteps_cons]
+    cases st with
+    | iterate cs =>
+      have hd : compIds (step N S (.iterate cs)).disk = compIds S.disk ++ cs.map (fun c => (c.stage, c.name, c.isDoc)) := by
+        show compIds (flatten N (addIteration S.exp cs).doc (addIteration S.exp cs).plat) = _
+        rw [components_survive, h]; simp [compIds, addIteration]
+      have he : compIds (step N S (.iterate cs)).exp.doc = compIds (step N S (.iterate cs)).disk := by
+        rw [hd, h]; simp [step, compIds, addIteration]
+      obtain ⟨a, b⟩ := ih (step N S (.iterate cs)) he.symm
+      rw [a, b, hd]; simp [iterIds, List.append_assoc]
+    | store =>
+      have hd : compIds (step N S .store).disk = compIds S.disk := by
+        show compIds (flatten N S.exp.doc S.exp.plat) = _
+        rw [components_survive, h]
+      have he : compIds (step N S .store).disk = compIds (step N S .store).exp.doc := by rw [hd, h]; rfl
+      obtain ⟨a, b⟩ := ih (step N S .store) he
+      rw [a, b, hd]; simp [iterIds]
+    | load Q upd =>
+      have hd : compIds (step N S (.load Q upd)).disk = compIds S.disk
+          ∧ compIds (step N S (.load Q upd)).exp.doc = compIds S.disk := by
+        unfold step
+        by_cases hl : loadable S.plats Q = true
+        · cases upd with
+          | true => simp only [hl, if_true]; exact ⟨components_survive N S.disk Q, trivial⟩
+          | false => simp [hl]
+        · simp only [hl]; exact ⟨rfl, h.symm⟩
+      obtain ⟨a, b⟩ := ih (step N S (.load Q upd)) (by rw [hd.1, hd.2])
+      rw [a, b, hd.1]; simp [iterIds]
+
+/-- … in particular for the session of the experiment that created the instance -/
+theorem session_components_from_creation (N : Nat) (E : Exp) (steps : List Step) :
+    compIds (runSteps N (Session.create N E) steps).disk = compIds E.doc ++ iterIds steps
+    ∧ compIds (runSteps N (Session.create N E) steps).exp.doc = compIds E.doc ++ iterIds steps := by
+  have h0 : compIds (Session.create N E).disk = compIds E.doc := components_survive N E.doc E.plat
+  have := session_components N steps (Session.create N E) h0
+  rw [h0] at this
+  exact this
+
+/-- **The description on disk is always the one the current experiment object stores** — for every history whose
+loads name the platform of the instance (updating loads and read-only restarts alike) and whose iterations produce
+descriptions that resolve: loading and storing again at any point of the session does not change the stored
+description, and the object obtained by a load at any point stores what the object it replaces stored. -/
+theorem session_disk_is_store (N : Nat) (P : Name) (steps : List Step) :
+    ∀ S : Session, S.exp.plat = P → resolves N S.exp.doc P = true → S.disk = store N S.exp →
+      S.plats = storedPlatforms P → loadsName P steps = true → stepsResolve N S steps = true →
+      (runSteps N S steps).disk = store N (runSteps N S steps).exp
+      ∧ (runSteps N S steps).exp.plat = P
+      ∧ resolves N (runSteps N S steps).exp.doc P = true := by
+  induction steps with
+  | nil => intro S hP hr hd _ _ _; exact ⟨hd, hP, hr⟩
+  | cons st r ih =>
+    intro S hP hr hd hpl hn hs
+    rw [runSteps_cons]
+    cases st with
+    | iterate cs =>
+      simp only [stepsResolve, Bool.and_eq_true] at hs
+      have hn' : loadsName P r = true := hn
+      refine ih (step N S (.iterate cs)) hP (by rw [← hP]; exact hs.1) rfl ?_ hn' hs.2
+      show storedPlatforms (addIteration S.exp cs).plat = _
+      rw [← hP]; rfl
+    | store =>
+      have hn' : loadsName P r = true := hn
+      refine ih (step N S .store) hP hr rfl ?_ hn' hs
+      show storedPlatforms S.exp.plat = _
+      rw [hP]
+    | load Q upd =>
+      simp only [loadsName, Bool.and_eq_true, beq_iff_eq] at hn
+      obtain ⟨hQ, hn'⟩ := hn
+      subst hQ
+      have hl : loadable S.plats Q = true := by rw [hpl]; exact (stored_platform_loadable Q).1
+      have hdisk : S.disk = flatten N S.exp.doc Q := by rw [hd, ← hP]; rfl
+      have hres : resolves N S.disk Q = true := by rw [hdisk]; exact resolves_stored N _ _ hr
+      have hidem : flatten N S.disk Q = S.disk := by
+        rw [hdisk]; exact flatten_idempotent N S.exp.doc Q hr
+      cases upd with
+      | true =>
+        have e : step N S (.load Q true)
+            = { exp := ⟨S.disk, Q, []⟩, writable := true, disk := store N ⟨S.disk, Q, []⟩, plats := storedPlatforms Q } := by
+          simp [step, hl]
+        rw [e]
+        exact ih { exp := ⟨S.disk, Q, []⟩, writable := true, disk := store N ⟨S.disk, Q, []⟩, plats := storedPlatforms Q }
+          rfl hres rfl rfl hn' (by rw [← e]; exact hs)
+      | false =>
+        have e : step N S (.load Q false)
+            = { exp := ⟨S.disk, Q, []⟩, writable := false, disk := S.disk, plats := S.plats } := by
+          simp [step, hl]
+        rw [e]
+        exact ih { exp := ⟨S.disk, Q, []⟩, writable := false, disk := S.disk, plats := S.plats }
+          rfl hres hidem.symm hpl hn' (by rw [← e]; exact hs)
+
+/-- … from the creation of the instance -/
+theorem session_disk_is_store_from_creation (N : Nat) (E : Exp) (steps : List Step)
+    (h : resolves N E.doc E.plat = true) (hn : loadsName E.plat steps = true)
+    (hs : stepsResolve N (Session.create N E) steps = true) :
+    (runSteps N (Session.create N E) steps).disk = store N (runSteps N (Session.create N E) steps).exp :=
+  (session_disk_is_store N E.plat steps (Session.create N E) rfl h rfl rfl hn hs).1
+
+/-- non-vacuity: platform 1; iterate, restart (read-only load), iterate, load+update, store -/
+def exSteps : List Step :=
+  [.iterate [{ stage := 1, name := 40, isDoc := false, opts := [(2, [.ref 10])], vars := [(12, [.ch 120])], ovr := [] }],
+   .load 1 false,
+   .iterate [{ stage := 1, name := 41, isDoc := false, opts := [(2, [.ref 12])], vars := [(12, [.ch 121])], ovr := [] }],
+   .load 1 true, .store]
+example : loadsName 1 exSteps = true ∧ stepsResolve 6 (Session.create 6 ⟨exDoc, 1, []⟩) exSteps = true := by decide
+example : iterIds exSteps = [(1, 40, false), (1, 41, false)] := by decide
+example : (runSteps 6 (Session.create 6 ⟨exDoc, 1, []⟩) exSteps).writable = true
+    ∧ (runSteps 6 (Session.create 6 ⟨exDoc, 1, []⟩) (exSteps.take 3)).writable = false := by decide
+
 end St4sd.C07
 
 /-! ## the instance directory: top-level folders and the references into them
